@@ -933,8 +933,8 @@ Definition check (c : list (list cgroup * option (option (Q * Q * Q * Q)) * opti
 class BoundsStreamStream(Stream):
     name = "stream"
     coq_header = STREAM_HEADER
-    n_quick = 150
-    n_thorough = 2500
+    n_quick = 100
+    n_thorough = 2000
 
     def gen(self, rng, tier):
         yield from stream_boundary_cases()
